@@ -495,6 +495,9 @@ func DHCPParseOptions(in []byte) (opts []DHCPOption, err error) {
 			if len(in)-pos >= 1 {
 				_len := in[pos]
 				pos++
+				if len(in)-pos < int(_len) {
+					return opts, errors.New("Truncated DHCP option")
+				}
 				opts = append(opts, DHCPNewOption(tag, in[pos:pos+int(_len)]))
 				pos += int(_len)
 			}
